@@ -26,6 +26,9 @@ R3 (K7) every 2a-family pack collection resolves _check_new_inventories to the G
 R4 (K2) get_missing_parent_inventories: an empty set is returned only when the format cannot stack, when no parent
    inventory is missing, or (with text checking) when no text is missing; otherwise the missing parents are reported as
    ("inventories", revision id) keys; StreamSink uses its result as the commit gate (shared with C03-R3).
+Added while testing against seeded changes: R5 RepoFetcher._fetch_everything_for_search reaches sink.finished() only
+through the 'nothing left' edge of a test of the (resume_tokens, missing_keys) just returned by insert_stream; R1b all
+four chk root-key sets of the new inventories are walked, interesting with its own uninteresting set.
 Does not decide: that _check_new_inventories / fileids_altered_by_revision_ids compute the right key sets.
 """
 
